@@ -294,6 +294,19 @@ def objgen_worker(args):
                 if o is not None:
                     o["desc"] = {"class": c.to_jsonable(), "sw": isinstance(c, upword.SW), "mode": mode, "strategy": type(s).__name__, "form": name}
                     res.append(o)
+        # equivalence paths: one union whose parameter map is the composition of the steps' maps
+        for name, r in rulecheck.paths(c, mode, rnd):
+            if r.comb_class.is_empty():
+                continue
+            try:
+                o = objgen_eval("path", r, N)
+            except NotImplementedError:
+                continue
+            except Exception as exc:  # noqa: BLE001
+                o = {"form": "path", "rule": f"{type(r).__name__} {r.comb_class!r} -> {r.children!r} via {r.strategy!r}",
+                     "exc": specrun.exc_info(exc), "kind": "?"}
+            if o is not None:
+                res.append(o)
     return res
 
 
